@@ -635,3 +635,277 @@ def rule_numeric_truth(repo, col, roots=()):
     col.ok(rule, roots[0][0] if roots else TABLE, '<scope>', 'scan', None,
            '%d functions scanned, %d numeric parameters' % (len(fns),
                                                            n_params))
+
+
+# ---------------------------------------------------------------------------
+RULE_TEXT['EF-ARGS'] = (
+    'A function that is not an enumerated mutator performs no in-place '
+    'change (mutating method, element store, in-place shuffle) on an object '
+    'that is, on that path, one of its own arguments.')
+
+ARG_MUTATORS = {'insert', 'append', 'extend', 'pop', 'remove', 'clear',
+                'sort', 'reverse', 'update', 'setdefault', 'popitem', 'add',
+                'discard', 'fill', 'put', 'resize', 'itemset'}
+# functions whose contract is to change what they are handed
+ARG_MUTATION_ALLOWED = {
+    ('biom/_subsample.pyx', '_subsample_with_replacement'),
+    ('biom/_subsample.pyx', '_subsample_without_replacement'),
+    ('biom/_filter.pyx', '_remove_rows_csr'),
+    ('biom/_transform.pyx', '_transform'),
+    ('biom/cli/table_validator.py', 'TableValidator.run'),   # **kwargs
+}
+
+
+class _ArgAlias:
+    """Flow-sensitive 'may this name be the caller's argument P here'."""
+
+    def __init__(self, fn, on_mutation):
+        self.fn = fn
+        self.on_mutation = on_mutation
+        ps = [a.arg for a in fn.args.args + fn.args.kwonlyargs
+              if a.arg not in ('self', 'cls')]
+        self.env0 = {p: {p} for p in ps}
+
+    def alias_of(self, e, env):
+        if isinstance(e, ast.Name):
+            return set(env.get(e.id, ()))
+        if isinstance(e, ast.IfExp):
+            return self.alias_of(e.body, env) | self.alias_of(e.orelse, env)
+        if isinstance(e, ast.BoolOp):
+            out = set()
+            for v in e.values:
+                out |= self.alias_of(v, env)
+            return out
+        return set()
+
+    def scan_expr(self, node, env):
+        for n in ast.walk(node):
+            if isinstance(n, (ast.Lambda, ast.FunctionDef)):
+                continue
+            if isinstance(n, ast.Call):
+                f = n.func
+                if isinstance(f, ast.Attribute) and f.attr in ARG_MUTATORS \
+                        and isinstance(f.value, ast.Name):
+                    for p in env.get(f.value.id, ()):
+                        self.on_mutation(n, p, '%s.%s()' % (f.value.id,
+                                                            f.attr))
+                if isinstance(f, ast.Attribute) and f.attr == 'shuffle' \
+                        and n.args and isinstance(n.args[0], ast.Name):
+                    for p in env.get(n.args[0].id, ()):
+                        self.on_mutation(n, p, 'shuffle(%s)' % n.args[0].id)
+
+    def block(self, stmts, env):
+        for st in stmts:
+            env = self.stmt(st, env)
+        return env
+
+    @staticmethod
+    def join(a, b):
+        out = {}
+        for k in set(a) | set(b):
+            out[k] = set(a.get(k, ())) | set(b.get(k, ()))
+        return out
+
+    def stmt(self, st, env):
+        if isinstance(st, (ast.FunctionDef, ast.ClassDef)):
+            return env
+        if isinstance(st, (ast.Assign, ast.AnnAssign, ast.AugAssign)):
+            val = st.value
+            if val is not None:
+                self.scan_expr(val, env)
+            tgts = st.targets if isinstance(st, ast.Assign) else [st.target]
+            env = dict(env)
+            for t in tgts:
+                if isinstance(t, ast.Name):
+                    if isinstance(st, ast.AugAssign):
+                        # x += [...] mutates a list argument in place
+                        for p in env.get(t.id, ()):
+                            self.on_mutation(st, p, '%s %s= ...' % (
+                                t.id, type(st.op).__name__))
+                    else:
+                        env[t.id] = self.alias_of(val, env) if val is not \
+                            None else set()
+                elif isinstance(t, ast.Subscript) and isinstance(
+                        t.value, ast.Name):
+                    for p in env.get(t.value.id, ()):
+                        self.on_mutation(st, p, '%s[...] = ...' % t.value.id)
+                elif isinstance(t, (ast.Tuple, ast.List)):
+                    for x in ast.walk(t):
+                        if isinstance(x, ast.Name):
+                            env[x.id] = set()
+            return env
+        if isinstance(st, ast.Delete):
+            for t in st.targets:
+                if isinstance(t, ast.Subscript) and isinstance(
+                        t.value, ast.Name):
+                    for p in env.get(t.value.id, ()):
+                        self.on_mutation(st, p, 'del %s[...]' % t.value.id)
+            return env
+        if isinstance(st, ast.If):
+            self.scan_expr(st.test, env)
+            a = self.block(st.body, dict(env))
+            b = self.block(st.orelse, dict(env))
+            return self.join(a, b)
+        if isinstance(st, (ast.For, ast.While)):
+            if isinstance(st, ast.For):
+                self.scan_expr(st.iter, env)
+                env = dict(env)
+                for x in ast.walk(st.target):
+                    if isinstance(x, ast.Name):
+                        env[x.id] = set()
+            else:
+                self.scan_expr(st.test, env)
+            out = self.block(st.body, dict(env))
+            out = self.block(st.body, self.join(env, out))
+            res = self.join(env, out)
+            return self.block(st.orelse, res) if st.orelse else res
+        if isinstance(st, ast.Try):
+            a = self.block(st.body, dict(env))
+            out = self.join(env, a)
+            for h in st.handlers:
+                out = self.join(out, self.block(h.body, dict(out)))
+            out = self.block(st.orelse, out) if st.orelse else out
+            return self.block(st.finalbody, out) if st.finalbody else out
+        if isinstance(st, ast.With):
+            for it in st.items:
+                self.scan_expr(it.context_expr, env)
+            return self.block(st.body, env)
+        for child in ast.iter_child_nodes(st):
+            if isinstance(child, ast.expr):
+                self.scan_expr(child, env)
+        return env
+
+    def run(self):
+        self.block(self.fn.body, dict(self.env0))
+
+
+def rule_ef_args(repo, col, roots=()):
+    from .rules_effects import MUTATORS
+    rule = 'EF-ARGS'
+    fns = closure(repo, roots)
+    n_f = 0
+    for (rel, q), fn in sorted(fns.items()):
+        if isinstance(fn, ast.Lambda):
+            continue
+        short = q.split('.')[-1]
+        # private helpers and nested functions may be written to fill what
+        # they are handed; the contract concerns the public surface
+        if short.startswith('_') and not short.startswith('__') or \
+                q.count('.') > (1 if q.startswith(('Table.', 'MetadataMap.',
+                                                   'TableValidator.',
+                                                   'ErrorProfile.'))
+                                else 0):
+            continue
+        if (rel, q) in ARG_MUTATION_ALLOWED or (
+                q.startswith('Table.') and q.count('.') == 1 and
+                short in MUTATORS and False):
+            continue
+        n_f += 1
+        hits = []
+        _ArgAlias(fn, lambda node, p, how: hits.append((node, p, how))).run()
+        seen = set()
+        for node, p, how in hits:
+            if (p, how) in seen:
+                continue
+            seen.add((p, how))
+            col.bad(rule, rel, q, 'mutates:%s' % p, node,
+                    '`%s` changes, in place, an object that is the '
+                    'caller\'s argument `%s` on this path: the caller\'s '
+                    'own list / mapping / array is modified by an '
+                    'operation that is not documented to do so' % (how, p))
+        if not hits:
+            col.ok(rule, rel, q, 'no-argument-mutation', fn,
+                   'no in-place change reaches an argument')
+    col.ok(rule, roots[0][0] if roots else TABLE, '<scope>', 'scan', None,
+           '%d functions scanned' % n_f)
+    # positive control
+    probe = ast.parse('def p(self, others):\n    t = others\n'
+                      '    t.insert(0, self)\n').body[0]
+    got = []
+    _ArgAlias(probe, lambda n, p, h: got.append(p)).run()
+    col.check(got == ['others'], rule, 'sa/rules_generic.py', '<control>',
+              'positive-control', None, 'the detector sees an aliased '
+              'insert', 'positive control failed')
+
+
+# ---------------------------------------------------------------------------
+RULE_TEXT['TA-LATEBIND'] = (
+    'A lambda / nested function created inside a loop and kept for later '
+    '(stored, registered, returned) does not read the loop variable as a '
+    'free variable: every such closure would see the value of the last '
+    'iteration.')
+
+
+def rule_late_binding(repo, col, rels=None):
+    rule = 'TA-LATEBIND'
+    n_loops = n_cl = 0
+    for rel, q, fn in repo.all_functions():
+        if '/tests/' in rel or isinstance(fn, ast.Lambda):
+            continue
+        if rels is not None and rel not in rels:
+            continue
+        for loop in [n for n in body_walk(fn) if isinstance(n, ast.For)]:
+            tnames = {x.id for x in ast.walk(loop.target)
+                      if isinstance(x, ast.Name)}
+            if not tnames:
+                continue
+            n_loops += 1
+            par = {}
+            for p in ast.walk(loop):
+                for c in ast.iter_child_nodes(p):
+                    par[id(c)] = p
+            for st in loop.body:
+                for n in ast.walk(st):
+                    if not isinstance(n, (ast.Lambda, ast.FunctionDef)):
+                        continue
+                    a = n.args
+                    own = {x.arg for x in a.args + a.kwonlyargs}
+                    if a.vararg:
+                        own.add(a.vararg.arg)
+                    if a.kwarg:
+                        own.add(a.kwarg.arg)
+                    body = [n.body] if isinstance(n, ast.Lambda) else n.body
+                    free = {x.id for b in body for x in ast.walk(b)
+                            if isinstance(x, ast.Name) and
+                            isinstance(x.ctx, ast.Load)} - own
+                    cap = free & tnames
+                    if not cap:
+                        continue
+                    n_cl += 1
+                    # used immediately? (called / passed to a call that
+                    # consumes it within the iteration: map, filter, sorted,
+                    # min, max, Table.filter/transform/...)
+                    p = par.get(id(n))
+                    immediate = False
+                    if isinstance(p, ast.Call) and p.func is n:
+                        immediate = True
+                    if isinstance(p, (ast.Call, ast.keyword)):
+                        call = p if isinstance(p, ast.Call) else par.get(
+                            id(p))
+                        cn = call_name(call) or (
+                            call.func.attr if isinstance(
+                                call.func, ast.Attribute) else '')
+                        last = (cn or '').split('.')[-1]
+                        if last in ('map', 'filter', 'sorted', 'min', 'max',
+                                    'sort', 'transform', 'reduce',
+                                    'partition', 'collapse', 'any', 'all',
+                                    'sum', 'list', 'tuple', 'set'):
+                            immediate = True
+                    if isinstance(n, ast.FunctionDef):
+                        # a def used only by calls inside the same iteration
+                        uses = [x for s2 in loop.body for x in ast.walk(s2)
+                                if isinstance(x, ast.Name) and x.id == n.name
+                                and isinstance(x.ctx, ast.Load)]
+                        immediate = bool(uses) and all(
+                            isinstance(par.get(id(u)), ast.Call) and
+                            par[id(u)].func is u for u in uses)
+                    col.check(immediate, rule, rel, q,
+                              'closure:%s' % ','.join(sorted(cap)), n,
+                              'the closure is consumed within the iteration',
+                              'a function created in the loop reads the '
+                              'loop variable `%s` when it is called later: '
+                              'all functions created by this loop then see '
+                              'the value of the last iteration'
+                              % ','.join(sorted(cap)))
+    col.ok(rule, 'biom', '<package>', 'scan', None,
+           '%d loops, %d closures over a loop variable' % (n_loops, n_cl))
